@@ -28,6 +28,21 @@ theorem core_ignores_other_codes (w : World) (o ci : Nat) (cc : CliConf) (m0 : M
   unfold radsrvCore
   simp only [h40, h43, h1, h12, h4, if_false, ne_eq, not_false_eq_true, and_self, if_true]
 
+/-- **C05 (Disconnect / CoA).** a Disconnect-Request is answered with Disconnect-NAK, a CoA-Request with CoA-NAK, each carrying
+    Error-Cause 406 (Unsupported Extension) - and that is all: the request is released, no identifier of any server is taken -/
+theorem core_naks_disconnect_and_coa (w : World) (o ci : Nat) (cc : CliConf) (m0 : Msg) (h : m0.code = 40 ∨ m0.code = 43) :
+    radsrvCore w o ci cc m0 =
+      freerq (respond (updRq w o fun r => { r with msg := some m0, rqid := m0.id, rqauth := m0.auth }) o
+                (if m0.code = 40 then 42 else 45) (some { t := 101, v := [0, 0, 1, 150] }) true) o := by
+  unfold radsrvCore
+  cases h with
+  | inl h => simp only [h, if_true]; rfl
+  | inr h =>
+    have : ¬ m0.code = 40 := by rw [h]; decide
+    simp only [this, h, if_false, if_true]; rfl
+
+theorem error_cause_406 : beEnc 4 406 = [0, 0, 1, 150] := by decide
+
 /-- **C05 (acted upon ⇒ acceptable).** For every state, every client block and
     every byte string handed to `radsrv`: if any outstanding table or any reply
     queue changes, then the packet's length field equals the octets received, its
